@@ -51,6 +51,10 @@ class GenericGen:
     def syms(self, prefix: str, n: int, **assumptions):
         return [self.sym(f"{prefix}{i}", **assumptions) for i in range(n)]
 
+    def var(self, name: str, **assumptions):
+        """a variable that stays symbolic in the replay too (differentiation / integration variable)"""
+        return self.sym(name, **assumptions)
+
     def fun(self, name: str, args):
         """a generic smooth function of `args`: an undefined SymPy function"""
         return sp.Function(name, real=True)(*args)
@@ -67,6 +71,10 @@ class PointGen:
 
     def syms(self, prefix: str, n: int, **assumptions):
         return [self.sym(f"{prefix}{i}") for i in range(n)]
+
+    def var(self, name: str, **assumptions):
+        assumptions.setdefault("real", True)
+        return sp.Symbol(name, **assumptions)
 
     def fun(self, name: str, args):
         """replay instance of a generic function: a fixed non-trivial smooth function chosen by name + point seed"""
